@@ -1,5 +1,7 @@
 //! Correspondence harness of property C19 (regex compilation, automaton parsing, base64).
 mod circuit;
+mod coll;
+mod data;
 mod reference;
 mod shapes;
 mod spec;
@@ -761,10 +763,7 @@ fn serialization_cases(ctx: &mut Ctx, a: &Automaton, label: &str, rng: &mut ChaC
         }
         // the 16 bytes of the two scalar header fields (nb_states, initial_state) x 256 values:
         // decoded without panic into the automaton the bytes say (the format has no checksum and
-        // does not validate state numbers). The two length fields are only DEcreased: an
-        // increased / misaligned length reaches `Vec::with_capacity(len)` with an unchecked
-        // 64-bit length (known finding of C16, `automaton-deserialize:length-field`), which can
-        // abort the process.
+        // does not validate state numbers). The two length fields are decreased and increased.
         let nfinals = a.final_states.len();
         let mut mutants: Vec<Vec<u8>> = vec![];
         static HEADER_SWEEPS: std::sync::atomic::AtomicUsize = std::sync::atomic::AtomicUsize::new(0);
@@ -784,6 +783,29 @@ fn serialization_cases(ctx: &mut Ctx, a: &Automaton, label: &str, rng: &mut ChaC
                 m[pos] = v as u8;
                 mutants.push(m);
             }
+            // INCREASED / misaligned lengths (since /repo e0a0bca the pre-allocation is bounded
+            // by the remaining input, so these are errors or re-readings of the following bytes,
+            // exactly as the model says; never a panic or an abort): low byte +1, +2, .., 255 and
+            // every higher byte of the 8-byte field set to 1, 0x7f, 0x80, 0xff (2^63 included)
+            for v in (cur + 1)..=255usize {
+                if v <= cur + 3 || v % 32 == 31 {
+                    let mut m = bytes.clone();
+                    m[pos] = v as u8;
+                    mutants.push(m);
+                }
+            }
+            for hi in 1..8usize {
+                for v in [1u8, 0x7f, 0x80, 0xff] {
+                    let mut m = bytes.clone();
+                    m[pos + hi] = v;
+                    mutants.push(m);
+                }
+            }
+            let mut m = bytes.clone();
+            for hi in 0..8usize {
+                m[pos + hi] = 0xff;
+            }
+            mutants.push(m);
         }
         for m in mutants {
             let nb = u64::from_le_bytes(m[..8].try_into().unwrap());
@@ -1281,8 +1303,8 @@ fn b64_encode(bytes: &[u8], pad: bool, url: bool) -> Vec<u8> {
 }
 
 fn b64_case(ctx: &mut Ctx, kind: &str, input: &[u8], mode: circuit::B64Mode, expect: Option<Option<Vec<u8>>>) {
-    use circuit::{run_b64, B64Verdict};
-    let v = run_b64(input, mode, 13);
+    use circuit::{run_b64_traced, B64Verdict};
+    let (v, tr) = run_b64_traced(input, mode, 13);
     let ans = match &v {
         B64Verdict::Ok(out) => format!("ok {}", hex(out)),
         B64Verdict::Stuck => {
@@ -1310,6 +1332,32 @@ fn b64_case(ctx: &mut Ctx, kind: &str, input: &[u8], mode: circuit::B64Mode, exp
     );
     ctx.count(&format!("b64:{kind}:{m}"));
     ctx.case(&format!("b64-{kind}"), !input.is_empty(), &format!("b64 {m} {}", hex(input)), &ans);
+    // structure of the real circuit: lookup expression and loaded table (once), and the enabled
+    // rows of the "Base64 chunk" regions (characters after url translation / padding
+    // normalisation with their copy constraints, 12-bit values) of every case that synthesises
+    match tr {
+        Some(Ok(t)) => {
+            static ONCE: std::sync::atomic::AtomicBool = std::sync::atomic::AtomicBool::new(false);
+            if !ONCE.swap(true, std::sync::atomic::Ordering::Relaxed) {
+                ctx.case("b64-lookup", true, "b64lookup x", &t.lookup);
+                ctx.case(
+                    "b64-table",
+                    true,
+                    "b64table x",
+                    &format!("{} rows {} pad {}", t.table.len(), t.table.join(" "), t.padding.split('x').next().unwrap_or("")),
+                );
+            }
+            let rows: Vec<String> = t.rows.chunks(2).map(|c| c.join(" ")).collect();
+            ctx.case(
+                "b64-rows",
+                !input.is_empty(),
+                &format!("b64rows {m} {}", hex(input)),
+                &(if rows.is_empty() { "-".to_string() } else { rows.join(" ") }),
+            );
+        }
+        Some(Err(e)) => ctx.case("b64-rows-unreadable", true, &format!("b64rows {m} {}", hex(input)), &format!("unreadable {e}")),
+        None => {}
+    }
     // the property itself
     match expect {
         Some(Some(bytes)) => {
@@ -1477,6 +1525,8 @@ fn main() {
     // the in-circuit parser also in the search tier (forged witnesses, verdicts); base64 sweeps
     // are identical in every tier and are not repeated by the search
     run_parse_circuit(&mut ctx);
+    coll::run_collections(&mut ctx);
+    data::run_data_types(&mut ctx);
     if !ctx.search() {
         run_base64(&mut ctx);
     }
